@@ -1,14 +1,39 @@
 import FGVerif.Driver.Shared
 import FGVerif.Model.C12
-/-! driver operations for C12 (base version) -/
+import FGVerif.Model.C12Spec
+/-! driver operations for C12 -/
 namespace C12
 open SExp
 
-/-- `(addh <graph> [impl])` → the completed graph in wire form -/
+/-- the implementation's output: a graph, or `(raised <Kind>)` -/
+def decodeImpl : List SExp → Option (Option (Option Graph))
+  | [] => some none
+  | [.list [.atom "raised", _]] => some (some none)
+  | [x] => (asGraph x).map fun g => some (some g)
+  | _ => none
+
+/-- `(addh <graph> [impl])` → `(ok <completed graph> spec_model spec_impl (failing clauses of impl…) wf=<0|1>)`
+    `(idem <graph> [impl])` → the same model; the spec is "output = input" (second completion) -/
 def handle : List SExp → Option SExp
-  | .atom "addh" :: g :: _rest => do
+  | .atom "addh" :: g :: rest => do
       let g ← asGraph g
-      pure (.list [.atom "ok", ofGraph (addImplicitHydrogens g), ofBool true, none'])
+      let model := addImplicitHydrogens g
+      let impl ← decodeImpl rest
+      let (si, why) := match impl with
+        | none => (none', [])
+        | some none => (ofBool false, ["raised"])
+        | some (some o) => (ofBool (specCheck g o), failing g o)
+      pure (.list [.atom "ok", ofGraph model, ofBool (specCheck g model), si, ofList (fun s => .atom s) why,
+                   .atom (if decide (WF g) then "wf=1" else "wf=0")])
+  | .atom "idem" :: g :: rest => do
+      let g ← asGraph g
+      let model := addImplicitHydrogens g
+      let impl ← decodeImpl rest
+      let si := match impl with
+        | none => none'
+        | some none => ofBool false
+        | some (some o) => ofBool (graphEq g o)
+      pure (.list [.atom "ok", ofGraph model, ofBool (graphEq g model), si])
   | _ => none
 
 end C12
